@@ -6,14 +6,10 @@ from __future__ import annotations
 from typing import TYPE_CHECKING
 
 # Third Party Imports
-from numpy import argwhere, exp, ones_like, sqrt
-from numpy import sum as np_sum
-from scipy.linalg import det
+from numpy import argwhere, ones_like
 
 # Local Imports
 from ...data.observation import Observation
-from ...physics import constants as const
-from ...physics.maths import fpe_equals
 from ...physics.statistics import oneSidedChiSquareTest
 from .adaptive_filter import AdaptiveFilter
 
@@ -65,23 +61,12 @@ class StaticMultipleModel(AdaptiveFilter):
         super().update(observations)
 
         if observations:
-            # [NOTE] Required to make mutable for Ray
-            self.model_likelihoods = self.model_likelihoods.copy()
-            self.model_weights = self.model_weights.copy()
-            for num, model in enumerate(self.models):
-                # Nastasi, K.N. Dissertation: Section 4.5 Algorithm 4.3 eq 4.9 pg 64
-                self.model_likelihoods[num] = exp(-0.5 * model.nis) / sqrt(
-                    (2 * const.PI) ** self.true_y.shape[0] * det(model.innov_cvr),
-                )
-                # Nastasi, K.N. Dissertation: Section 4.5 Algorithm 4.3 eq 4.10 pg 64
-                self.model_weights[num] = self.model_weights[num] * self.model_likelihoods[num]
-
+            # Nastasi, K.N. Dissertation: Section 4.5 Algorithm 4.3 eq 4.9-4.11 pg 64
+            self.model_likelihoods, posterior = self._bayesRule(self.model_weights)
             # Check for zero model likelihoods, usually if number of models is large (~100)
-            if fpe_equals(0.0, np_sum(self.model_weights)):
-                self.model_weights = ones_like(self.model_weights)
-
-            # Nastasi, K.N. Dissertation: Section 4.5 Algorithm 4.3 eq 4.11 pg 64
-            self.model_weights = self.model_weights / np_sum(self.model_weights)
+            if posterior is None:
+                posterior = ones_like(self.model_weights) / len(self.model_weights)
+            self.model_weights = posterior
 
         # Compile model data into "stacked" estimate & covariances
         self._compileUpdateStep(observations)
